@@ -228,6 +228,7 @@ func (f *c04fx) runCer(n int) {
 		chk.State.SubStake(a, chk.State.GetStakeBalance(a))
 		chk.State.AddStake(a, stake)
 		b0, d0 := chk.State.GetBalance(a), chk.State.GetBalance(d)
+		lt0 := chainfx.LedgerOf(chk.State).Total
 		if i%2 == 0 { // killed with a saved share: locked part = part
 			chk.State.AddLockedStake(a, part)
 			prev := []state.IdentityState{state.Human, state.Suspended, state.Zombie, state.Verified, state.Newbie}[f.r.Intn(5)]
@@ -245,6 +246,9 @@ func (f *c04fx) runCer(n int) {
 			f.c.Line(fmt.Sprintf("cerv %s %s", stake, part),
 				fmt.Sprintf("%s %s", new(big.Int).Sub(chk.State.GetBalance(d), d0), chk.State.GetStakeBalance(a)))
 			f.c.Hit("cerv")
+		}
+		if lt1 := chainfx.LedgerOf(chk.State).Total; lt1.Cmp(lt0) > 0 {
+			f.fail("C04:applyOnState-increased-total", fmt.Sprintf("stake %s part %s variant %d: total %s -> %s", stake, part, i%2, lt0, lt1))
 		}
 		if chk.State.GetStakeBalance(a).Sign() < 0 || chk.State.GetBalance(a).Sign() < 0 || chk.State.GetBalance(d).Sign() < 0 {
 			f.fail("C04:negative-component:applyOnState", fmt.Sprintf("stake %s part %s", stake, part))
@@ -493,6 +497,9 @@ func (f *c04fx) finishCat(line string, chk *appstate.AppState, before c04snap, l
 			ex := new(big.Int).Sub(dt, catPool)
 			if cur, _ := f.c.Rep.Coverage["fn_max_category_payouts_minus_share"].(*big.Int); cur == nil || ex.Cmp(cur) > 0 {
 				f.c.Rep.Coverage["fn_max_category_payouts_minus_share"] = ex
+			}
+			if ex.Cmp(c04roundingSlack(catPool, 256)) > 0 {
+				f.fail("C04:growth-exceeds-bound:epoch-category", fmt.Sprintf("%s paid %s > its share of the pool %s by more than float32 rounding explains", what, dt, catPool))
 			}
 		}
 		for _, d := range la.Negative {
@@ -759,7 +766,11 @@ func (f *c04fx) runFlat(n int) {
 		}
 		god := chk.State.GodAddress()
 		g0, z0 := chk.State.GetBalance(god), chk.State.GetBalance(common.Address{})
+		lt0 := chainfx.LedgerOf(chk.State).Total
 		blockchain.VerifC04FoundationAndZeroWallet(chk, f.cc, pool)
+		if dt := new(big.Int).Sub(chainfx.LedgerOf(chk.State).Total, lt0); dt.Cmp(new(big.Int).Add(pct(pool, f.cc.FoundationPayoutsPercent), pct(pool, f.cc.ZeroWalletPercent))) > 0 {
+			f.fail("C04:growth-exceeds-bound:epoch-category", fmt.Sprintf("foundation + zero wallet paid %s of pool %s", dt, pool))
+		}
 		f.c.Line(fmt.Sprintf("flat %s", pool), fmt.Sprintf("%s %s", new(big.Int).Sub(chk.State.GetBalance(god), g0), new(big.Int).Sub(chk.State.GetBalance(common.Address{}), z0)))
 		f.c.Distinct("flat" + pool.String())
 	}
